@@ -21,7 +21,16 @@ def observe(spec, inputs):
         _clear_caches(n)
         c = plspec.build(n, spec["model"], {})
         P = c.ge_polyhedron
-        if spec.get("via") == "select":
+        if spec.get("via") == "cfgselect-multi":
+            got = []
+
+            def rec(Pm, objs):
+                got.append(numpy.asarray(objs))
+                return [(None, 0, 4) for _ in got[-1]]
+            first = {cfg.items(spec["model"])[0]: 1}
+            list(c.select(dict(first), dict(inputs["prios"]), solver=rec, only_leafs=False))
+            w = got[-1][1:2]
+        elif spec.get("via") == "select":
             got = []
 
             def rec(Pm, objs):
